@@ -78,7 +78,20 @@ def main():
     keep = sys.argv[1]
     rnd = random.Random(7)
     rows = []
-    for d in sorted(os.listdir(keep)):
+    rows_file = os.path.join(vlib.VERIF, 'selftest', 'rows.jsonl')
+    os.makedirs(os.path.dirname(rows_file), exist_ok=True)
+    done = {}
+    if os.path.exists(rows_file) and os.environ.get('SELFTEST_RESUME'):
+        for line in open(rows_file):
+            r = json.loads(line)
+            done[r[0]] = r
+    else:
+        open(rows_file, 'w').close()
+    # (the pack data sets last: a corrupted coordinate can make the half-float evaluation run into the time limit)
+    for d in sorted(os.listdir(keep), key=lambda x: (x.startswith('C10'), x)):
+        if d in done:
+            rows.append(tuple(done[d]))
+            continue
         dd = os.path.join(keep, d)
         if not os.path.exists(os.path.join(dd, 'meta.json')):
             continue
@@ -109,7 +122,7 @@ def main():
             for i in ids:
                 bad[i] = corrupted[i]
             try:
-                res = vlib.run_tlc(meta['module'], cfg, bad, files=meta['files'], timeout=300, tag='selftest')
+                res = vlib.run_tlc(meta['module'], cfg, bad, files=meta['files'], timeout=120, tag='selftest')
             except vlib.Machinery as e:      # a corrupted number can make an evaluation run away: counted like an evaluation error
                 res = {'error': str(e), 'verdicts': []}
             if res['error']:
@@ -125,6 +138,8 @@ def main():
         rejected |= stopped
         missed = sorted({what[i] for i in what if i not in rejected})
         rows.append((d, meta['module'], len(what), len(rejected), bool(err), missed))
+        with open(rows_file, 'a') as f:
+            f.write(json.dumps(rows[-1]) + '\n')
         print(f'{d}: {meta["module"]}: {len(rejected)}/{len(what)} corrupted records rejected ({len(stopped)} of them by a TLC evaluation error)', flush=True)
     out = sys.argv[2] if len(sys.argv) > 2 else os.path.join(vlib.VERIF, 'selftest', 'REPORT.md')
     os.makedirs(os.path.dirname(out), exist_ok=True)
@@ -132,7 +147,7 @@ def main():
         f.write('# Binding demonstration: corrupted observations against the trace specifications\n\n')
         f.write('Generated by `harness/selftest.py` from a sample of the records of a quick run (see its docstring).\n\n')
         f.write('| data set | module | corrupted | rejected | leaves whose corruption was not rejected |\n|---|---|---|---|---|\n')
-        for d, m, a, b, e, miss in rows:
+        for d, m, a, b, e, miss in sorted(rows):
             f.write(f'| {d} | {m} | {a} | {b}{" (+ TLC error)" if e else ""} | {", ".join(miss[:12])} |\n')
     vacuous = [r for r in rows if r[2] and not r[3] and not r[4]]
     if vacuous:
